@@ -95,6 +95,8 @@ P['ct_modstate'] = 'mod osc {\n  pub fn cnt(x:float){\n    self + x\n  }\n}\nfn 
 P['ct_namelike'] = 'fn lambda_0(x:float){\n  x + 1.0\n}\nfn dsp_(x:float){\n  x * 2.0\n}\nfn _mimium_x(x:float){\n  x - 1.0\n}\nfn dsp(a:float)->float{\n  let f = |x| x * 3.0\n  f(lambda_0(a)) + dsp_(a) + _mimium_x(a)\n}\n'
 P['ct_tuplearr'] = 'fn dsp(a:float)->float{\n  let t = ([1.0, 2.0, 3.0], 5.0)\n  t.0[a] + t.1\n}\n'
 P['ct_blocklet'] = 'fn dsp(a:float)->float{\n  let x = 1.0\n  let y = {\n    let x = a * 2.0\n    x + 1.0\n  }\n  x + y * 10.0\n}\n'
+P['ct_arrempty'] = 'fn dsp(a:float)->float{\n  let t = []\n  t[a] + 1.0\n}\n'
+P['ct_arremptyarg'] = 'fn pick(t:[float], i:float){\n  t[i] * 2.0\n}\nfn dsp(a:float)->float{\n  pick([], a) + pick([a, 1.0], a)\n}\n'
 # ---- G_cls --------------------------------------------------------------------------------------------------
 P['cl_hof'] = 'fn apply(f:(float)->float, x:float){\n  f(x)\n}\nfn dsp(a:float)->float{\n  apply(|x| x * 3.0, a)\n}\n'
 P['cl_capture'] = 'fn dsp(a:(float,float))->float{\n  let k = a.0\n  let f = |x| x * k + 1.0\n  f(a.1)\n}\n'
